@@ -1085,8 +1085,60 @@ def translate_source(src, origin="deap/tools/emo.py"):
             text = "  (* REFUSED %s: translator error -- placeholder: the hand model *)\n" \
                    "  Definition gen_%s %s : M o (%s) :=\n    %s.\n" % (name, name, signature(params), coqtype(rettype), model)
         out += text + "\n"
-    out += "End Gen.\n"
+    out += "End Gen.\n" + TRAILER
     return out, status
+
+
+TRAILER = """
+(* correspondence entry point: the same cases as Corr.C05.check, run through the regenerated definitions.
+   The attribute table starts as the harness observed it before the call (stale crowding_dist values) and must end
+   as observed after it; the selection is compared in order.  Twice for a selNSGA2 call: over the fronts the
+   implementation's sorter returned during the call, and end to end over property C04's models of the sorters. *)
+From DV Require Import Base.Corr Corr.C05.
+Section GenRunner.
+  Variable o : numops.
+  Variable deq : D o -> D o -> bool.
+
+  Definition tab_of (init : list (option (D o))) : cdtab o := fun u => nth u init None.
+
+  Definition gen_run_sel (k : nat) (pop : list (list Z * list (V o))) (fu : list (list nat)) (obs_sel : list nat)
+             (init_cd obs_cd : list (option (D o))) (cmp_sel std : bool) : bool :=
+    let p := mkpop pop in
+    let fronts := map (select p) fu in
+    let s : sorter o := fun _ _ => Some fronts in
+    match gen_selNSGA2 o s s p (Z.of_nat k) (nd_of std) (tab_of init_cd) with
+    | Some (r, t') => (negb cmp_sel || list_eqb Nat.eqb (map uid r) obs_sel) &&
+                      list_eqb (option_eqb deq) (map t' (seq 0 (length p))) obs_cd
+    | None => false
+    end &&
+    match gen_selNSGA2 o (model_sorter o NdStandard) (model_sorter o NdLog) p (Z.of_nat k) (nd_of std) (tab_of init_cd) with
+    | Some (r, t') => (negb cmp_sel || list_eqb Nat.eqb (map uid r) obs_sel) &&
+                      list_eqb (option_eqb deq) (map t' (seq 0 (length p))) obs_cd
+    | None => false
+    end.
+
+  Definition gen_run_crowd (vals : list (list (V o))) (obs : list (D o)) : bool :=
+    match gen_assignCrowdingDist o (mkpop (map (fun v => ([], v)) vals)) (fun _ => None) with
+    | Some (_, t') => list_eqb (option_eqb deq) (map t' (seq 0 (length vals))) (map Some obs)
+    | None => false
+    end.
+End GenRunner.
+
+Definition check_gen (c : case) : bool :=
+  match c with
+  | CSelF std k pop fu s ic cd => gen_run_sel f_ops feqb k pop fu s ic cd true std
+  | CSelQ exact std k pop fu s ic cd =>
+      gen_run_sel q_ops (if exact then qinf_eqb else qinf_close) k pop fu s ic cd exact std
+  | CCrowdF vals obs => gen_run_crowd f_ops feqb vals obs
+  | CCrowdQ exact vals obs => gen_run_crowd q_ops (if exact then qinf_eqb else qinf_close) vals obs
+  | CFullQ nd k pop obs =>
+      option_eqb (list_eqb Nat.eqb)
+        (option_map (fun rt => map uid (fst rt))
+           (gen_selNSGA2 q_ops (model_sorter q_ops NdStandard) (model_sorter q_ops NdLog) (mkpop pop) (Z.of_nat k)
+                         (nd_of_nat nd) (fun _ => None))) obs
+  end.
+Definition check_both (c : case) : bool := check c && check_gen c.
+"""
 
 
 def translate_repo(repo):
